@@ -259,7 +259,7 @@ def gen_poly_doc(draw):
     types = [it(n, w) for n, w in zip(pk.HEADER_NAMES, pk.HEADER_WIDTHS)] + [it("A", 8), it("B", 16), it("C", 8)]
     params = [{"name": n, "type": n + "_T", "short": None, "long": None} for n in names + ["A", "B", "C"]]
     apid = draw(st.integers(0, 2047))
-    second = draw(st.sampled_from([["A", "C"], ["B"], ["C", "A"], ["A", "B"], ["B", "A"], ["B", "A"]]))
+    second = draw(st.sampled_from([["A", "C"], ["B"], ["C", "A"], ["A", "B"], ["B", "A"], ["B", "A"], ["A"], ["A", "B", "C"]]))
     conts = [{"name": "CCSDSPacket", "entries": [["p", n] for n in names], "base": None, "match": None, "abstract": True,
               "short": None, "long": None}]
     for i, fields in enumerate((["A", "B"], second)):
